@@ -1,16 +1,22 @@
 """C23 -- generated source is deterministic, idempotent and replaced atomically.
 
 Three monitors over specs (cdef + module name + C source, a pure function of a seed):
-  det    the real emit_c_code / emit_python_code / recompile / compile run in fresh
-         processes with different PYTHONHASHSEEDs and different case orders; the
-         bytes are compared inside a process (same FFI twice, fresh FFI, other entry
-         point, file-like target) and across processes (sha256).
-  idem   generate, regenerate, change the input, regenerate: returned flag, bytes,
-         st_mtime_ns / st_ino and the "(already up-to-date)" message, plus an icontract
+  det    the real emit_c_code / emit_python_code / recompile / make_c_source /
+         make_py_source / compile run in fresh processes with different PYTHONHASHSEEDs
+         and different case orders; the bytes are compared inside a process (same FFI
+         twice, fresh FFI with other set_source() keywords, other entry point, file-like
+         target) and across processes (sha256).
+  idem   generate, regenerate, change the input (a declaration, the module name, the C
+         source; for API mode also ONLY the line ends of the C source), regenerate, go
+         back; then on one FFI object: generate, cdef() one more declaration, generate
+         again.  Judged: bytes against a fresh generation, the flag decided inside,
+         st_mtime_ns / st_ino, the "(already up-to-date)" message, and what the entry point
+         hands to its caller (recompile()'s 'updated', make_*_source()'s result,
+         distutils_extension()'s "regenerated"/"not modified"); plus an icontract
          postcondition on recompiler._make_c_or_py_source active for every workload.
   crash  fault enumeration of the write path with old content O in place and N != O
-         to be written, in four scenarios (replace, no old file, rename fails once /
-         always = the unlink+rename fallback): the target is inspected at every
+         to be written, in four scenarios (replace, no old file, the final os.rename /
+         os.replace fails once / always = any fallback path): the target is inspected at every
          sys.monitoring LINE event of _make_c_or_py_source (what a process dying there
          leaves behind; a sample is cross-checked with a forked os._exit), an
          asynchronous exception is raised at every LINE event, a short-write file stops
@@ -25,9 +31,12 @@ from vlib import core, build, gen_cdef as GC
 VARIANT = 'plain'
 LEVEL = "fault_enumeration"
 RULE = ("spec = random cdef context (typedef chains, aggregates, enums, constants, functions, "
-        "globals; API mode adds '...' items, extern \"Python\", embedding, C source with non-ASCII "
-        "comments and LF/CRLF/CR line ends; optional ffi.include() of a second context; dotted "
-        "module names) in API (.c) or ABI (.py) mode; det case = (spec, hash seed/process history, "
+        "globals; unnamed structs/unions/enums, FILE and other common types, function pointers in "
+        "aggregates; a second cdef() with packed=/pack=/override=; API mode adds '...' items, extern "
+        "\"Python\", embedding, C source with non-ASCII comments and LF/CRLF/CR line ends, "
+        "source_extension; optional ffi.include() of 1-3 other contexts (flat, chain, diamond; "
+        "include order shuffled); set_source() keywords; dotted module names) in API (.c) or ABI "
+        "(.py) mode; det case = (spec, hash seed/process history, "
         "entry point); idem case = (spec, entry point, pre-existing target content, step); crash "
         "case = (spec, scenario, fault kind, fault index); distinct = all of these; non-trivial = "
         "the spec generated a non-empty source")
@@ -51,12 +60,56 @@ API_EXTRAS = ['#define {P}DOTS ...', 'typedef ... {p}opaque_t;', 'int {p}var(int
               'typedef float... {p}somefloat_t;']
 ABI_EXTRAS = ['int {p}var(int, ...);', 'typedef int (*{p}cbt)(void *, char **);',
               'struct {p}opq *{p}mk(void);', 'typedef struct {p}fwd {p}fwd_t;']
+# both modes: aggregates / enums without a C name (numbered '$n' by the parser, emitted through
+# _add_missing_struct_unions), common types resolved through the process-wide cache of
+# commontypes.py (FILE brings 'struct _IO_FILE'), qualifiers, function pointers in aggregates
+COMMON_EXTRAS = ['struct {p}outer {{ struct {{ int a; short b; }} p; union {{ long c; char d; }} q; '
+                 'struct {{ char e; }} r[2]; }};',
+                 'typedef struct {{ int z; }} *{p}anonp_t;',
+                 'typedef enum {{ {P}AE1, {P}AE2 = 7 }} {p}aenum_t;',
+                 'enum {{ {P}ANON_A = 5, {P}ANON_B }};',
+                 'int {p}fpr(FILE *, wchar_t, intptr_t, const char *const *);',
+                 'size_t {p}sz(ptrdiff_t, uint8_t, int_least16_t, char16_t *, _Bool);',
+                 'struct {p}ops {{ int (*open)(const char *, int); void (*close)(void *); '
+                 'struct {p}ops *next; }};',
+                 'union {p}un {{ struct {p}ops *o; volatile int v; double d[3]; }};']
+CDEF2 = ['struct {p}pk {{ char a; int b; short c; }};', 'union {p}pku {{ char a; long long b; }};']
+KWDS = [{}, {'libraries': ['m']}, {'define_macros': [('C23_X', '1')], 'extra_compile_args': ['-O0']},
+        {'include_dirs': ['inc'], 'library_dirs': ['lib']}]
 
 
 # ---------------------------------------------------------------------------
 # specs (pure function of the seed; used by parent, children and the strace worker)
 
+def change_line_ends(src, rnd):
+    """the same C source with other line ends (nothing else changes)"""
+    if '\r\n' in src and rnd.random() < 0.7:
+        return src.replace('\r\n', '\n'), 'crlf-to-lf'
+    if '\r' in src and '\r\n' not in src and rnd.random() < 0.7:
+        return src.replace('\r', '\n'), 'cr-to-lf'
+    how = rnd.choice(['all-lf-to-crlf', 'one-lf-to-crlf', 'one-lf-to-cr', 'all-lf-to-cr'])
+    rep = '\r' if how.endswith('-cr') else '\r\n'
+    lone = [m.start() for m in re.finditer(r'(?<!\r)\n', src)]
+    if how.startswith('all'):
+        return re.sub(r'(?<!\r)\n', rep, src), how
+    k = rnd.choice(lone)
+    return src[:k] + rep + src[k + 1:], how
+
+
+def make_base(seed, n, tag, mode, rnd, nd):
+    bp = '%s%d_' % (tag, n)
+    bc = GC.Ctx(random.Random(seed * 7 + ord(tag)), prefix=bp, nd=nd)
+    return {'name': rnd.choice(['_base' + tag + '%d', 'pkg%d._base' + tag]) % n, 'prefix': bp,
+            'cdef': bc.cdef_text() + 'typedef struct { int x; } %sbt;\n' % bp,
+            'src': bc.c_source() if mode == 'c' else None, 'includes': []}
+
+
+VARIANTS = {0: None, 1: 'random', 2: 'lineends', 3: 'decl'}
+
+
 def make_spec(seed, variant=0):
+    """variant 0: the spec; 1: one of decl/name/source changed (drawn from the seed);
+    2: only the line ends of the C source changed (API mode); 3: one declaration added"""
     rnd = random.Random(seed)
     n = seed % 100000
     p = 'm%d_' % n
@@ -66,18 +119,40 @@ def make_spec(seed, variant=0):
     name = rnd.choice(['_m%d', 'pkg%d._m', 'a%d.b.c_ext']) % n
     spec = {'seed': seed, 'mode': mode, 'base': None, 'embed': None, 'changed': None}
     if rnd.random() < 0.35:
-        bp = 'b%d_' % n
-        bc = GC.Ctx(random.Random(seed * 7 + 1), prefix=bp, nd=rnd.choice([2, 4, 6]))
-        spec['base'] = {'name': rnd.choice(['_base%d', 'pkg%d._base']) % n,
-                        'cdef': bc.cdef_text() + 'typedef struct { int x; } %sbt;\n' % bp,
-                        'src': bc.c_source() if mode == 'c' else None}
-        decls.append('int %suse_base(%sbt *);\n' % (p, bp))
-    extras = API_EXTRAS if mode == 'c' else ABI_EXTRAS
+        # 1..3 included contexts, in a given order; an included context may itself include one
+        # (chain), and two included contexts may include the same one (diamond)
+        tags = 'bcd'[:rnd.choice([1, 1, 2, 2, 3])]
+        bases = [make_base(seed, n, t, mode, rnd, rnd.choice([2, 4, 6])) for t in tags]
+        shape = rnd.choice(['flat', 'chain', 'diamond']) if len(bases) > 1 else 'flat'
+        top = list(bases)
+        if shape == 'chain':
+            bases[0]['includes'] = [1]
+            top = [bases[0]] + bases[2:]
+        elif shape == 'diamond':
+            for b in bases[:-1]:
+                b['includes'] = [len(bases) - 1]
+            top = bases[:-1]
+        rnd.shuffle(top)                     # include order is part of the input
+        spec['base'] = {'all': bases, 'top': [bases.index(b) for b in top], 'shape': shape}
+        for b in bases:
+            decls.append('int %suse_%s(%sbt *);\n' % (p, b['prefix'], b['prefix']))
+    extras = (API_EXTRAS if mode == 'c' else ABI_EXTRAS) + COMMON_EXTRAS
     for e in rnd.sample(extras, rnd.randrange(0, len(extras) + 1)):
         decls.append(e.format(p=p, P=p.upper()) + '\n')
+    rk = random.Random(seed ^ 0xBEEF)         # (own stream: the draws above stay what they were)
+    spec['cdef2'] = None
+    if rk.random() < 0.25:
+        spec['cdef2'] = {'text': rk.choice(CDEF2).format(p=p) + '\n',
+                         'opts': rk.choice([{'packed': True}, {'pack': 1}, {'override': True},
+                                            {'packed': False}])}
+    spec['kwds'] = [rk.choice(KWDS), rk.choice(KWDS)]
+    spec['ext'] = rk.choice(['.c'] * 5 + ['.cpp', '.cc']) if mode == 'c' else '.py'
     kind = None
     if variant:
-        kind = random.Random(seed ^ 0xC23).choice(['decl', 'name', 'source'][:3 if mode == 'c' else 2])
+        kind = VARIANTS[variant]
+        if kind == 'random':
+            kind = random.Random(seed ^ 0xC23).choice(['decl', 'name', 'source'][:3 if mode == 'c'
+                                                                                  else 2])
         spec['changed'] = kind
         if kind == 'decl':
             decls.append('long %sadded_in_variant(long);\n' % p)
@@ -94,6 +169,8 @@ def make_spec(seed, variant=0):
             src = src.replace('\n', '\r\n')
         elif r < 0.12:
             src += '// classic line end\r// second line\r'
+        if kind == 'lineends':
+            src, spec['lineends'] = change_line_ends(src, random.Random(seed ^ 0x1E))
         if rnd.random() < 0.2:
             spec['embed'] = {'api': 'int %semb(int);' % p,
                              'init': 'from %s import ffi\n# %s\n@ffi.def_extern()\ndef %semb(x):\n'
@@ -103,53 +180,102 @@ def make_spec(seed, variant=0):
     return spec
 
 
-def build_ffi(spec):
+def build_ffi(spec, alt=0, hold_extra=False):
+    """alt=1: other set_source() keywords (the text does not depend on them);
+    hold_extra: leave out the declaration a variant-3 spec adds (the caller cdef()s it later)"""
     from cffi import FFI
     ffi = FFI()
     b = spec['base']
     if b:
-        base = FFI()
-        base.cdef(b['cdef'])
-        base.set_source(b['name'], b['src'])
-        ffi.include(base)
+        made = {}
+
+        def mk(i):
+            if i not in made:
+                d = b['all'][i]
+                f = FFI()
+                for j in d['includes']:
+                    f.include(mk(j))
+                f.cdef(d['cdef'])
+                f.set_source(d['name'], d['src'])
+                made[i] = f
+            return made[i]
+        for i in b['top']:
+            ffi.include(mk(i))
     if spec['embed']:
         ffi.embedding_api(spec['embed']['api'])
-    ffi.cdef(spec['cdef'])
-    ffi.set_source(spec['name'], spec['src'])
+    text = spec['cdef']
+    if hold_extra:
+        assert spec['changed'] == 'decl' and text.endswith(added_decl(spec))
+        text = text[:-len(added_decl(spec))]
+    ffi.cdef(text)
+    if spec['cdef2']:
+        ffi.cdef(spec['cdef2']['text'], **spec['cdef2']['opts'])
+    kw = dict(spec['kwds'][alt])
+    if spec['ext'] not in ('.c', '.py'):
+        kw['source_extension'] = spec['ext']
+    ffi.set_source(spec['name'], spec['src'], **kw)
     if spec['embed']:
         ffi.embedding_init_code(spec['embed']['init'])
     return ffi
 
 
-def hows(spec):
-    return ['emit', 'recompile', 'tmpdir'] + (['compile'] if spec['src'] is None else [])
+def make_source_verbose(spec):
+    return {'verbose': True} if spec['seed'] & 1 else {}
+
+
+def added_decl(spec):
+    return 'long m%d_added_in_variant(long);\n' % (spec['seed'] % 100000)
+
+
+def hows(spec, distext=True):
+    """the entry points that write a generated source without running the C compiler
+    (distutils_extension() imports setuptools, > 1 s per process: idem monitor only)"""
+    return ['emit', 'recompile', 'tmpdir', 'make_source'] + (
+        ['compile'] if spec['src'] is None else ['distext'] if distext else [])
 
 
 def target_path(spec, base, how):
-    ext = '.c' if spec['src'] is not None else '.py'
-    if how in ('tmpdir', 'compile'):
-        return os.path.join(base + '.d', *spec['name'].split('.')) + ext
-    return base + ext
+    if how in ('tmpdir', 'compile', 'distext'):
+        return os.path.join(base + '.d', *spec['name'].split('.')) + spec['ext']
+    return base + ('.c' if spec['src'] is not None else '.py')
 
 
 def emit(ffi, spec, base, how):
-    """Run one real entry point; returns (target path, text printed on stdout)."""
+    """Run one real entry point; returns (target path, text printed on stdout, the 'updated'
+    value the entry point reports to its caller or None when it reports none)."""
     from cffi import recompiler
     path = target_path(spec, base, how)
-    buf = io.StringIO()
+    buf, err = io.StringIO(), io.StringIO()
+    reported = None
     with contextlib.redirect_stdout(buf):
         if how == 'emit':
             (ffi.emit_c_code if spec['src'] is not None else ffi.emit_python_code)(path)
         elif how == 'recompile':
-            recompiler.recompile(ffi, spec['name'], spec['src'], c_file=path,
-                                 call_c_compiler=False, uses_ffiplatform=False, compiler_verbose=0)
+            _, reported = recompiler.recompile(ffi, spec['name'], spec['src'], c_file=path,
+                                               call_c_compiler=False, uses_ffiplatform=False,
+                                               compiler_verbose=0)
         elif how == 'tmpdir':
-            recompiler.recompile(ffi, spec['name'], spec['src'], tmpdir=base + '.d',
-                                 call_c_compiler=False, uses_ffiplatform=False)
+            _, reported = recompiler.recompile(ffi, spec['name'], spec['src'], tmpdir=base + '.d',
+                                               call_c_compiler=False, uses_ffiplatform=False,
+                                               source_extension=spec['ext'])
+        elif how == 'make_source':          # what setuptools_ext's build steps call
+            if spec['src'] is not None:
+                reported = recompiler.make_c_source(ffi, spec['name'], spec['src'], path,
+                                                    **make_source_verbose(spec))
+            else:
+                reported = recompiler.make_py_source(ffi, spec['name'], path,
+                                                     **make_source_verbose(spec))
+        elif how == 'distext':
+            with contextlib.redirect_stderr(err):
+                ext = ffi.distutils_extension(tmpdir=base + '.d')
+            assert os.path.abspath(ext.sources[0]) == os.path.abspath(path), (ext.sources, path)
+            said = err.getvalue()
+            reported = {(True, False): True, (False, True): False}.get(
+                ('regenerated: ' in said, 'not modified: ' in said), said)
         elif how == 'compile':
             got = ffi.compile(tmpdir=base + '.d', verbose=1)
             assert os.path.abspath(got) == os.path.abspath(path), (got, path)
-    return path, buf.getvalue()
+    return path, buf.getvalue(), reported
 
 
 def rd(path):
@@ -244,11 +370,13 @@ def child_setup(setup, wd):
 
 
 def run_emit(st, rep, spec, ffi, base, how, detail, step=''):
-    """emit() under the contract; returns (path, flag, stdout text, contract broken?)."""
+    """emit() under the contract; returns (path, flag, stdout text, contract broken?).
+    st['reported'] is what the entry point itself reported (None: nothing)."""
     del st['flags'][:]
     broken = None
+    st['reported'] = None
     try:
-        path, out = emit(ffi, spec, base, how)
+        path, out, st['reported'] = emit(ffi, spec, base, how)
     except ContractBroken as e:
         broken = e.args[0]
         path, out = target_path(spec, base, how), ''
@@ -287,18 +415,24 @@ def op_det(st, rep, case):
         detail = {'op': 'det', 'seeds': [seed], 'hs': hs}
         base = os.path.join(st['wd'], 'det%d' % k, 'x')
         os.makedirs(os.path.dirname(base))
-        hw = hows(spec)
+        hw = hows(spec, distext=False)
         random.Random('%s/%s' % (seed, hs)).shuffle(hw)     # differs between processes
         ffi = build_ffi(spec)
         p1, _, _, _ = run_emit(st, rep, spec, ffi, base + 'a', hw[0], detail)
         b1 = rd(p1)
+        rep.stat('det_entry_point_' + hw[0])
         rep.case(('det', hs, seed, hw[0]), nontrivial=bool(b1), sample={
             'seed': seed, 'mode': spec['mode'], 'module': spec['name'], 'bytes': len(b1 or b''),
             'include': bool(spec['base']), 'embedding': bool(spec['embed'])})
         rep.stat('det_specs_' + spec['mode'])
-        for feat in ('base', 'embed', 'cr'):
+        for feat in ('base', 'embed', 'cr', 'cdef2'):
             if spec[feat]:
                 rep.stat('det_specs_with_' + feat)
+        if spec['base']:
+            rep.stat('det_specs_with_%d_includes_%s' % (len(spec['base']['all']),
+                                                        spec['base']['shape']))
+        if spec['ext'] not in ('.c', '.py'):
+            rep.stat('det_specs_with_source_extension')
 
         def same(label, data, how):
             rep.case(('det', hs, seed, label, how))
@@ -310,8 +444,13 @@ def op_det(st, rep, case):
         p2, _, _, _ = run_emit(st, rep, spec, ffi, base + 'b', hw[0], detail)
         same('same-ffi-repeated', rd(p2), hw[0])
         for i, how in enumerate(hw[1:2]):
-            p3, _, _, _ = run_emit(st, rep, spec, build_ffi(spec), base + 'c%d' % i, how, detail)
+            # (the fresh FFI is given other set_source() keywords: not an input of the text)
+            p3, _, _, _ = run_emit(st, rep, spec, build_ffi(spec, alt=1), base + 'c%d' % i, how,
+                                   detail)
             same('fresh-ffi-other-entry-point', rd(p3), how)
+            rep.stat('det_entry_point_' + how)
+            if spec['kwds'][0] != spec['kwds'][1]:
+                rep.stat('det_cmp_other_set_source_keywords')
         f = io.StringIO()
         with contextlib.redirect_stdout(io.StringIO()):
             (ffi.emit_c_code if spec['src'] is not None else ffi.emit_python_code)(f)
@@ -331,78 +470,135 @@ OLD_NS = 10 ** 18            # 2001-09-09: any rewrite shows in st_mtime_ns
 
 def op_idem(st, rep, case):
     for seed in case['seeds']:
-        rnd = random.Random(seed ^ 0x1DE)
-        s0, s1 = make_spec(seed), make_spec(seed, 1)
-        detail = {'op': 'idem', 'seeds': [seed]}
-        base = os.path.join(st['wd'], 'idem%d' % seed)
-        how = rnd.choice(hows(s0))
-        if s0['name'] != s1['name'] and how in ('tmpdir', 'compile'):
-            how = 'emit'              # the derived file name would change with the module name
-        ref = {}
-        for v, s in ((0, s0), (1, s1)):
-            p, _, _, _ = run_emit(st, rep, s, build_ffi(s), base + 'ref%d' % v, 'emit', detail)
-            ref[v] = rd(p)
-        target = target_path(s0, base, how)
-        pre = rnd.choice(['absent', 'absent', 'empty', 'prefix', 'extended', 'onechar',
-                          'crlf-copy', 'undecodable'])
-        N0 = ref[0]
-        if pre != 'absent':
-            k = rnd.choice([i for i in range(len(N0)) if N0[i] < 0x80])    # an ASCII byte
-            wr(target, {'empty': b'', 'prefix': N0[:k], 'extended': N0 + b'\n',
-                        'onechar': N0[:k] + bytes([N0[k] ^ 1]) + N0[k + 1:],
-                        'crlf-copy': N0.replace(b'\r\n', b'\n').replace(b'\n', b'\r\n'),
-                        'undecodable': N0[:k] + b'\xff\xfe' + N0[k:]}[pre])
-        steps = [('first:' + pre, 0, True), ('again', 0, False), ('changed', 1, True),
-                 ('again-changed', 1, False), ('back', 0, True)]
-        for label, v, want in steps:
-            s = (s0, s1)[v]
+        idem_one(st, rep, seed)
+
+
+DERIVED = ('tmpdir', 'compile', 'distext')     # the file name is derived from the module name
+REPORTING = ('recompile', 'tmpdir', 'make_source', 'distext')    # hand 'updated' to the caller
+LE = ':line-ends-only-change'
+
+
+def idem_one(st, rep, seed):
+    rnd = random.Random(seed ^ 0x1DE)
+    specs = {0: make_spec(seed), 1: make_spec(seed, 1)}
+    s0 = specs[0]
+    if s0['mode'] == 'c':
+        specs[2] = make_spec(seed, 2)
+    detail = {'op': 'idem', 'seeds': [seed]}
+    base = os.path.join(st['wd'], 'idem%d' % seed)
+    how = rnd.choice(hows(s0))
+    if s0['name'] != specs[1]['name'] and how in DERIVED:
+        how = 'emit'              # the derived file name would change with the module name
+    ref = {}
+    for v, s in sorted(specs.items()):
+        p, _, _, _ = run_emit(st, rep, s, build_ffi(s), base + 'ref%d' % v, 'emit', detail)
+        ref[v] = rd(p)
+    target = target_path(s0, base, how)
+    pre = rnd.choice(['absent', 'absent', 'empty', 'prefix', 'extended', 'onechar',
+                      'crlf-copy', 'undecodable', 'last-byte-cut', 'last-byte-changed'])
+    N0 = ref[0]
+    if pre != 'absent':
+        k = rnd.choice([i for i in range(len(N0)) if N0[i] < 0x80])    # an ASCII byte
+        wr(target, {'empty': b'', 'prefix': N0[:k], 'extended': N0 + b'\n',
+                    'onechar': N0[:k] + bytes([N0[k] ^ 1]) + N0[k + 1:],
+                    'crlf-copy': N0.replace(b'\r\n', b'\n').replace(b'\n', b'\r\n'),
+                    'undecodable': N0[:k] + b'\xff\xfe' + N0[k:],
+                    'last-byte-cut': N0[:-1], 'last-byte-changed': N0[:-1] + b' '}[pre])
+
+    def step(label, s, want_data, want, ffi, how, le=''):
+        """one regeneration of `target` by `ffi` (built from spec s): afterwards the target is
+        want_data, the flag is `want`, and an unchanged target was not touched"""
+        old = Snap(target)
+        if old.data is not None and not label.startswith('first'):
+            os.utime(target, ns=(OLD_NS, OLD_NS))
             old = Snap(target)
-            if old.data is not None and label != 'first:' + pre:
-                os.utime(target, ns=(OLD_NS, OLD_NS))
-                old = Snap(target)
-            try:
-                path, flag, out, broken = run_emit(st, rep, s, build_ffi(s), base, how, detail,
-                                                     'step ' + label)
-            except Exception as e:
-                if pre == 'undecodable' and label.startswith('first') and rd(target) == old.data:
-                    rep.stat('obs_undecodable_target_raises_' + type(e).__name__)
-                    wr(target, ref[0])                                # outside the statement
-                    continue
-                raise
-            new = Snap(target)
-            key = label.split(':')[0]
-            rep.case(('idem', seed, how, label), sample={'seed': seed, 'how': how, 'step': label})
-            rep.stat('idem_step_' + key)
-            rep.stat('idem_via_' + how)
-            if label.startswith('first'):
-                rep.stat('idem_pre_' + pre)
-            if pre == 'crlf-copy' and label.startswith('first') and new.data != ref[0]:
-                rep.stat('obs_crlf_copy_target_left_as_is')       # outside the statement
-                wr(target, ref[0])
-                continue
-            sfx = ':cr-in-source' if s['cr'] else ''
-            msg = ('seed %d (%s mode, module %r, via %s) step %s: ' % (
-                seed, s['mode'], s['name'], how, label))
-            if new.data != ref[v]:
-                rep.bad('idempotence:wrong-content-after-' + key, msg + 'target differs from a '
-                        'fresh generation: ' + where_differs(ref[v], new.data), detail)
-            if not broken and flag is not want:
-                rep.bad('idempotence:%s%s' % ('rewritten-identical' if want is False else
-                                               'reported-not-updated', sfx),
-                        msg + 'updated flag %r, expected %r' % (flag, want), detail)
-            if want is False and not broken and new.st != old.st:
-                rep.bad('idempotence:touched-identical' + sfx, msg + '(st_mtime_ns, st_ino) %r '
-                        '-> %r although the content was already identical' % (old.st, new.st),
-                        detail)
-            if how in ('emit', 'tmpdir', 'compile') and not broken:      # verbose entry points
-                rep.stat('idem_message_checked')
-                if ('(already up-to-date)' in out) != (flag is False) or 'generating' not in out:
-                    rep.bad('report:up-to-date-message', msg + 'printed %r with flag %r' %
-                            (out[-200:], flag), detail)
-        if ref[0] == ref[1]:
-            rep.bad('harness-variant-identical', 'seed %d: variant did not change the output'
-                    % seed, detail)
+        try:
+            path, flag, out, broken = run_emit(st, rep, s, ffi, base, how, detail, 'step ' + label)
+        except Exception as e:
+            if pre == 'undecodable' and label.startswith('first') and rd(target) == old.data:
+                rep.stat('obs_undecodable_target_raises_' + type(e).__name__)
+                wr(target, want_data)                             # outside the statement
+                return
+            raise
+        assert path == target, (path, target)
+        reported = st['reported']
+        new = Snap(target)
+        key = label.split(':')[0]
+        rep.case(('idem', seed, how, label), sample={'seed': seed, 'how': how, 'step': label})
+        rep.stat('idem_step_' + key)
+        rep.stat('idem_via_' + how)
+        if label.startswith('first'):
+            rep.stat('idem_pre_' + pre)
+        if pre == 'crlf-copy' and label.startswith('first') and new.data != want_data:
+            rep.stat('obs_crlf_copy_target_left_as_is')           # outside the statement
+            wr(target, want_data)
+            return
+        sfx = le or (':cr-in-source' if s['cr'] else '')
+        msg = ('seed %d (%s mode, module %r, via %s) step %s: ' % (
+            seed, s['mode'], s['name'], how, label))
+        if le:
+            msg += '(only the line ends of the C source changed: %s) ' % le_how[0]
+        if new.data != want_data:
+            rep.bad('idempotence:wrong-content' + (le or '-after-' + key), msg + 'target differs '
+                    'from a fresh generation: ' + where_differs(want_data, new.data), detail)
+            wr(target, want_data)          # the following steps are judged on their own
+        if not broken and flag is not want:
+            rep.bad('idempotence:%s%s' % ('rewritten-identical' if want is False else
+                                           'reported-not-updated', sfx),
+                    msg + 'updated flag %r, expected %r' % (flag, want), detail)
+        if want is False and not broken and new.st != old.st:
+            rep.bad('idempotence:touched-identical' + sfx, msg + '(st_mtime_ns, st_ino) %r '
+                    '-> %r although the content was already identical' % (old.st, new.st),
+                    detail)
+        if (how in ('emit', 'tmpdir', 'compile', 'distext') or
+                (how == 'make_source' and make_source_verbose(s))) and not broken:   # verbose
+            rep.stat('idem_message_checked')
+            if ('(already up-to-date)' in out) != (flag is False) or 'generating' not in out:
+                rep.bad('report:up-to-date-message', msg + 'printed %r with flag %r' %
+                        (out[-200:], flag), detail)
+        if how in REPORTING and not broken:
+            # what the entry point hands to its caller (recompile()'s 'updated', make_*_source()'s
+            # result, distutils_extension()'s "regenerated"/"not modified") is the inner decision
+            rep.stat('idem_reported_flag_checked_' + how)
+            if reported not in (True, False) or reported is not flag:
+                rep.bad('report:returned-flag:' + how, msg + 'the entry point reported %r, '
+                        '_make_c_or_py_source decided %r' % (reported, flag), detail)
+
+    le_how = [specs[2].get('lineends')] if 2 in specs else [None]
+    steps = [('first:' + pre, 0, True, ''), ('again', 0, False, ''), ('changed', 1, True, ''),
+             ('again-changed', 1, False, ''), ('back', 0, True, '')]
+    if 2 in specs:
+        steps += [('lineends', 2, True, LE), ('again-lineends', 2, False, ''),
+                  ('back-lineends', 0, True, LE)]
+        rep.stat('idem_lineends_' + le_how[0])
+    for label, v, want, le in steps:
+        step(label, specs[v], ref[v], want, build_ffi(specs[v]), how, le)
+    for v in specs:
+        if v and ref[0] == ref[v]:
+            rep.bad('harness-variant-identical', 'seed %d: variant %d did not change the output'
+                    % (seed, v), detail)
+    # history on ONE FFI object: generate, cdef() one more declaration, generate again; the
+    # second text is what a fresh FFI given all the declarations generates
+    s3 = specs[1] if specs[1]['changed'] == 'decl' else make_spec(seed, 3)
+    if s3 is not specs[1]:
+        p, _, _, _ = run_emit(st, rep, s3, build_ffi(s3), base + 'ref3', 'emit', detail)
+        ref[3] = rd(p)
+    else:
+        ref[3] = ref[1]
+    how2 = rnd.choice([h for h in hows(s0)])
+    if how2 != how:
         shutil.rmtree(base + '.d', ignore_errors=True)
+        for f in (target, target_path(s0, base, how2)):
+            if os.path.exists(f):
+                os.unlink(f)
+        target = target_path(s0, base, how2)
+        pre = 'absent'
+    ffi = build_ffi(s3, hold_extra=True)
+    step('inc-before', s0, ref[0], rd(target) != ref[0], ffi, how2)
+    ffi.cdef(added_decl(s3))
+    step('inc-more-cdef', s3, ref[3], True, ffi, how2)
+    step('inc-again', s3, ref[3], False, ffi, how2)
+    shutil.rmtree(base + '.d', ignore_errors=True)
 
 
 # ---------------------------------------------------------------------------
@@ -482,25 +678,31 @@ def op_crash(st, rep, case):
                 return ChoppedWriter(path, arm)
         return builtins.open(path, mode, *a, **k)
 
-    real_rename = os.rename
-    ren = {'mode': None, 'calls': 0}
+    # the step that moves the new file onto the target (os.rename, os.replace, whichever the
+    # code under test calls, also as a fallback of the other) can fail once or every time
+    real = {'rename': os.rename, 'replace': os.replace}
+    ren = {'mode': None, 'calls': 0, 'failed': []}
 
-    def faulty_rename(a, b):
-        ren['calls'] += 1
-        if ren['mode'] == 'rename-fails-always' or (ren['mode'] == 'rename-fails-once' and
-                                                   ren['calls'] == 1):
-            raise OSError(errno.EEXIST, 'File exists (injected)', b)
-        return real_rename(a, b)
+    def faulty(fn):
+        def move(a, b, *args, **kw):
+            ren['calls'] += 1
+            if ren['mode'] == 'rename-fails-always' or (ren['mode'] == 'rename-fails-once' and
+                                                       ren['calls'] == 1):
+                ren['failed'].append(fn)
+                raise OSError(errno.EEXIST if fn == 'rename' else errno.EACCES,
+                              'move onto the target refused (injected)', b)
+            return real[fn](a, b, *args, **kw)
+        return move
 
     mon.register_callback(TOOL, mon.events.LINE, on_line)
     mon.set_local_events(TOOL, code, mon.events.LINE)
     recompiler.open = chopped_open
-    os.rename = faulty_rename
+    os.rename, os.replace = faulty('rename'), faulty('replace')
     try:
         for seed in case['seeds']:
             crash_one(st, rep, case, seed, arm, ren)
     finally:
-        os.rename = real_rename
+        os.rename, os.replace = real['rename'], real['replace']
         del recompiler.open
         mon.set_local_events(TOOL, code, 0)
         mon.register_callback(TOOL, mon.events.LINE, None)
@@ -558,7 +760,7 @@ def crash_one(st, rep, case, seed, arm, ren):
                 judge(scenario, kind, at, 'alive', where, old)
             except Exception as e:
                 rep.bad('harness-observe', repr(e), None)
-        ren.update(mode=scenario if scenario.startswith('rename') else None, calls=0)
+        ren.update(mode=scenario if scenario.startswith('rename') else None, calls=0, failed=[])
         arm.update(kind=kind, at=at, n=0, line=None, observe=observe,
                    stops=at if isinstance(at, list) else [at])
         outcome = 'completed'
@@ -586,6 +788,10 @@ def crash_one(st, rep, case, seed, arm, ren):
         n, line = arm['n'], arm['line']
         arm.update(kind=None)
         ren.update(mode=None)
+        for fn in ren['failed']:
+            rep.stat('crash_move_step_failed_os.' + fn)
+        if scenario.startswith('rename') and kind == 'none' and not ren['failed']:
+            rep.stat('obs_crash_move_step_not_intercepted')
         where = 'end' if kind.endswith('snapshot') or kind == 'none' else \
             'line %s (event %s)' % (line, at) if kind.startswith('line-') else 'byte %s' % at
         judge(scenario, kind, at, outcome, where, old)
@@ -847,6 +1053,7 @@ def det_cases(seeds, oseed, per=40):
 def det_judge(ctx, results):
     """results: list of ((label, hashseed, order seed), [(case, obs)])"""
     table = {}                           # seed -> label -> (hash, hashseed, chunk)
+    shown = [0]
     for (label, hs, _), good in results:
         for c, o in good:
             for s, h in o.get('h', {}).items():
@@ -865,8 +1072,10 @@ def det_judge(ctx, results):
         ctx.violation(mech, 'seed %d: generated source differs between process %s (PYTHONHASHSEED='
                       '%s) and process %s (PYTHONHASHSEED=%s): sha256 %s vs %s; %s' % (
                           seed, a, row[a][1], b, row[b][1], row[a][0], row[b][0],
-                          det_diff(ctx, seed, runs)),
+                          det_diff(ctx, seed, runs) if shown[0] < 4 else
+                          'first difference not looked up (see the first violations; --replay)'),
                       {'op': 'detpair', 'seed': seed, 'runs': runs})
+        shown[0] += 1
 
 
 def det_diff(ctx, seed, runs):
